@@ -2502,7 +2502,11 @@ class BDD(dd._abc.BDD[_Ref]):
             v, succ, umap, level_map)
         q = self._load(
             w, succ, umap, level_map)
-        r = self.find_or_add(j, p, q)
+        # The receiving manager can have a different
+        # variable order (when `levels=False`),
+        # so build the node with `ite`, as `_copy_bdd` does.
+        g = self.find_or_add(j, -1, 1)
+        r = self.ite(g, q, p)
         if r <= 0:
             raise AssertionError(r)
         umap[abs(u)] = r
